@@ -2,6 +2,7 @@
 from vf import dtwmon, gen, monitors, oracle, wpsmon
 from vf.oracle import inf
 from vf.runner import Plan
+from vf import ownsuite
 
 RULE = ("cases = paths returned by dtw.best_path / best_path2 on Python and C matrices (psi_neg on and off, "
         "internal representation with penalty), dtw.warping_path, dtw.warping_path_fast, dtw_cc.warping_path, "
@@ -15,7 +16,7 @@ RULE = ("cases = paths returned by dtw.best_path / best_path2 on Python and C ma
 ASSUME = ["paths are compared by validity and cost, never by identity (engines may return different optimal paths)",
           "max_step / max_dist are not part of this property's quantifier and are not generated",
           "cost tolerance 1e-9"]
-PLAN = Plan("C05", RULE, ASSUME,
+PLAN = Plan("C05", RULE, ASSUME, native=ownsuite.native_for("c05", "C05"),
             workers={"quick": [("plain", 16, "C05")], "thorough": [("plain", 13, "C05"), ("asan", 3, "C05")]},
             deciding=("c05_paths_checked", "paths:dtw.best_path(py-matrix)", "paths:dtw.warping_path_fast",
                       "paths:dtw_cc.best_path_compact"),
